@@ -1,22 +1,31 @@
 (* C01 — builder-constructed HUGRs satisfy the specification's validity rules.
    Property-level theorems only; each is closed by an exact reference to a lemma of proofs/BuilderP.v.
 
-   The goal, at full strength (NOT proved; every conjunct of `valid` not listed in the partial theorem
-   below is evaluated by the monitor on the implementation's own document for every generated program):
+   The goal, at full strength, IS NOW PROVED for the modelled builder language (second pass; theorem
+   C01_builder_valid at the end of this file):
 
-     C01_builder_valid (the goal) : forall tys p g,
-       WFProg p ->                      (* inputs wired once, linear values used once, Ext/Dom wires copyable,
-                                           order edges forward: the premises of harness/progs.py *)
-       run tys p = Ok g ->
-       valid {| v_tys := tys; v_main := g; v_subs := [] |} = true.
+       forall tys p g,
+         r_table tys = true ->            (* the type table is consistent *)
+         wf_prog tys p = true ->          (* spec/BuilderWFS.v, a boolean computed from the program text:
+                                             wt_prog (wires bound and typed, arguments match fixed signatures),
+                                             ord_prog (add_state_order forward inside its region),
+                                             lin_prog (non-copyable wires consumed exactly once, in their region) *)
+         run tys p = Ok g ->              (* no builder call raises *)
+         valid {| v_tys := tys; v_main := g; v_subs := [] |} = true.
+
+   For builder calls outside the model (Function/Module/Cfg/Conditional/TailLoop roots and statements, call /
+   load_function, CallIndirect, insert_*, tracked builder) `valid` is evaluated by the monitor on the implementation's
+   own document for every generated program.
 
    `run` is the builder model of model/Builder.v (programs over Dfg / add_op / add / extend / load /
    add_nested / add_state_order / set_outputs with non-local wires, any nesting depth); it is tied to
    hugr-py by the correspondence `run prog == the document the real builders serialise` on generated
-   programs (run/C01Run.v). *)
+   programs (run/C01Run.v), and the premise wf_prog is evaluated on each of those programs. *)
 From Coq Require Import NArith List Bool.
 Import ListNotations.
-From HV Require Import lib.Harness model.Validity model.Builder spec.BuilderS proofs.BuilderP proofs.BuilderExtP.
+From HV Require Import lib.Harness model.Validity model.Builder spec.BuilderS proofs.BuilderP proofs.BuilderExtP
+  spec.BuilderWFS proofs.BuilderFrameP proofs.BuilderRulesP proofs.BuilderTypeP
+  proofs.BuilderAcyclicP proofs.BuilderNonLocalP proofs.BuilderInputsP proofs.BuilderLinearP proofs.BuilderCopyP.
 
 (* Proved for ALL programs of the modelled language, with no well-formedness premise: whenever the
    builder calls do not raise, the serialised document satisfies
@@ -41,6 +50,100 @@ Theorem C01_ext_wires_have_order_edges : forall tys p st,
 Proof. exact exec_prog_ext_order. Qed.
 Print Assumptions C01_ext_wires_have_order_edges.
 
+(* Second pass.  Proved for ALL programs of the modelled language, again with no well-formedness premise:
+     r_io_rows (rule 3)          : the Input and Output rows of every dataflow container equal its inner signature
+                                   (the Output node and its container are completed together by set_outputs);
+     r_root_no_edges (rule 6)    : no edge touches the root;
+     r_no_edge_into_func (rule 13): no value edge enters a function body (the modelled language has no FuncDefn);
+     r_cfg_edges (rule 16)       : vacuous in the modelled language (no control-flow edges). *)
+Theorem C01_builder_io_rows_root_func : forall tys p g,
+  run tys p = Ok g ->
+  r_io_rows g = true /\ r_root_no_edges g = true /\ r_no_edge_into_func tys g = true /\ r_cfg_edges g = true.
+Proof. exact run_io_root_func. Qed.
+Print Assumptions C01_builder_io_rows_root_func.
+
+(* Second pass.  For every WELL-TYPED program (spec/BuilderWFS.v: wt_prog, a boolean computed from the program
+   text alone: used wires are bound and typed, the arguments of a fixed-signature operation or Tag have its input
+   row, partial operations can be completed, Tags and constants agree with the type table, add_state_order does
+   not start at Output / end at Input) whose builder calls do not raise:
+     r_port_counts (rule 5)   : every edge attaches to a port its operation has;
+     r_edge_kinds (rule 7)    : same kind and type at both ends of every edge;
+     r_derived_types (rule 4) : the sum type carried by a Tag is the table entry of its rows;
+     r_const (rule 17)        : constants inhabit their type.
+   The premise is needed: hugr-py's add_op wires arguments of any type to an operation with a fixed signature
+   without raising. *)
+Theorem C01_builder_ports_kinds : forall tys p g,
+  wt_prog tys p = true -> run tys p = Ok g ->
+  r_port_counts g = true /\ r_edge_kinds g = true /\ r_derived_types tys g = true /\ r_const tys [] g = true.
+Proof. exact run_ports_kinds. Qed.
+Print Assumptions C01_builder_ports_kinds.
+
+(* Second pass.  r_inputs_once (rule 8): every value / static input port of every non-root node has exactly one
+   link, for every well-typed program (wt_prog) whose builder calls do not raise. *)
+Theorem C01_builder_inputs_once : forall tys p g,
+  wt_prog tys p = true -> run tys p = Ok g -> r_inputs_once g = true.
+Proof. exact run_inputs_once. Qed.
+Print Assumptions C01_builder_inputs_once.
+
+(* Second pass.  r_linear_once (rule 9): every output port of non-copyable type of every non-root node has exactly
+   one outgoing link, for every well-typed program whose non-copyable wires are consumed exactly once in the region
+   that binds them (spec/BuilderWFS.v: lin_prog, a boolean computed from the program text: wire ids never
+   re-bound, every non-copyable output bound to a wire, every non-copyable wire used exactly once as an argument of
+   add_op / add_nested or by set_outputs of its own region) and whose builder calls do not raise. *)
+Theorem C01_builder_linear_once : forall tys p g,
+  wt_prog tys p = true -> lin_prog tys p = true -> run tys p = Ok g -> r_linear_once tys g = true.
+Proof. exact run_linear_once. Qed.
+Print Assumptions C01_builder_linear_once.
+
+(* Second pass.  r_acyclic (rule 10, the boolean the validator computes: Kahn's algorithm on fuel over the
+   value, static and order edges between the children of each dataflow container) for every program whose
+   add_state_order calls go forward (spec/BuilderWFS.v: ord_prog, a boolean computed from the program text:
+   statement ids unique; every add_state_order joins Input / statements of the region it is written in /
+   Output in program order) and whose builder calls do not raise.  The ranking: node index, Output last; the
+   builders only wire existing nodes to the node being added, set_outputs wires into Output, and the order edge
+   of a non-local wire runs from the wire's source to a container created after it. *)
+Theorem C01_builder_acyclic : forall tys p g,
+  ord_prog p = true -> run tys p = Ok g -> r_acyclic g = true.
+Proof. exact run_acyclic. Qed.
+Print Assumptions C01_builder_acyclic.
+
+(* the premise ord_prog is needed: hugr-py accepts a backward add_state_order and the document then has a cycle *)
+Theorem C01_backward_order_refuted : ord_prog ex_cyclic = false /\ wt_prog ex_tys ex_cyclic = true /\
+  exists g, run ex_tys ex_cyclic = Ok g /\ r_acyclic g = false.
+Proof. exact ex_cyclic_refuted. Qed.
+Print Assumptions C01_backward_order_refuted.
+
+(* Second pass.  The bridge from the store-level ExtOrder (above) to the document-level booleans, for ALL programs
+   of the modelled language (no well-formedness premise): the validator's ancestor walk (`walk`, on fuel, with the
+   resolved order-port offsets of the serialised document) classifies every edge of the document as local, as a
+   good non-local edge, or as non-copyable; hence
+     r_ext_order_edge (rule 14)    : every value edge entering a nested region has its order edge;
+     r_nonlocal_relation (rule 12) : every non-local edge is an Ext edge / a static edge from an enclosing region;
+     r_dominance (rule 15)         : no edge is a Dom edge (vacuous: no CFG in the modelled language).
+   Rule 11 (non-local edges carry copyable values only) is NOT claimed: it needs a premise on the program. *)
+Theorem C01_builder_nonlocal_edges : forall tys p g,
+  run tys p = Ok g ->
+  r_nonlocal_relation tys g = true /\ r_ext_order_edge tys g = true /\ r_dominance tys g = true.
+Proof. exact run_nonlocal. Qed.
+Print Assumptions C01_builder_nonlocal_edges.
+
+(* non-vacuity: a program whose document has a good non-local value edge and a good non-local static edge *)
+Theorem C01_nonlocal_example : exists g, run ex3_tys ex3_prog = Ok g /\
+  valid {| v_tys := ex3_tys; v_main := g; v_subs := [] |} = true /\
+  existsb (fun r => ecode_eqb (classify ex3_tys g (redges g) r) EOk && negb (is_static (r_kind r))) (redges g) = true /\
+  existsb (fun r => ecode_eqb (classify ex3_tys g (redges g) r) EOk && is_static (r_kind r)) (redges g) = true.
+Proof. exact ex3_nonlocal. Qed.
+Print Assumptions C01_nonlocal_example.
+
+(* the premises are satisfiable by a non-trivial program: constant at the root, nested region with an Ext wire,
+   MakeTuple / UnpackTuple / Noop, Tag, fixed-signature op, linear value, explicit order edge; 13 nodes *)
+Theorem C01_wf_example : (wt_prog ex2_tys ex2_prog = true /\ ord_prog ex2_prog = true) /\
+  exists g, run ex2_tys ex2_prog = Ok g /\
+    valid {| v_tys := ex2_tys; v_main := g; v_subs := [] |} = true /\ length (g_nodes g) = 13%nat /\
+    existsb (fun e => negb (optN_eqb (parent_of g (e_src e)) (parent_of g (e_dst e)))) (g_edges g) = true.
+Proof. exact ex2_all. Qed.
+Print Assumptions C01_wf_example.
+
 (* the theorem is not vacuous: a program with a nested region and a non-local wire runs in the model and
    the whole `valid` accepts its document *)
 Theorem C01_model_runs : exists g, run ex_tys ex_prog = Ok g /\
@@ -51,3 +154,23 @@ Theorem C01_model_has_ext_wire : exists st, exec_prog ex_tys ex_prog = Ok st /\
   existsb (fun e => port_link e && negb (optN_eqb (anc_sib st (e_src e) (e_dst e)) (Some (e_dst e)))) (s_links st) = true.
 Proof. exact ex_has_ext_wire. Qed.
 Print Assumptions C01_model_has_ext_wire.
+
+(* Second pass.  r_nonlocal_copyable (rule 11): no non-local edge carries a non-copyable value and no order edge is
+   non-local, for every well-formed program (wf_prog = wt_prog && ord_prog && lin_prog). *)
+Theorem C01_builder_nonlocal_copyable : forall tys p g,
+  wf_prog tys p = true -> run tys p = Ok g -> r_nonlocal_copyable tys g = true.
+Proof. exact run_nonlocal_copyable. Qed.
+Print Assumptions C01_builder_nonlocal_copyable.
+
+(* THE GOAL for the modelled builder language: every well-formed program whose builder calls do not raise
+   serialises a document that the whole of `valid` (all 18 rules and the type table) accepts. *)
+Theorem C01_builder_valid : forall tys p g,
+  r_table tys = true -> wf_prog tys p = true -> run tys p = Ok g ->
+  valid {| v_tys := tys; v_main := g; v_subs := [] |} = true.
+Proof. exact run_valid. Qed.
+Print Assumptions C01_builder_valid.
+
+(* its premises are satisfiable: the 13-node example program of C01_wf_example *)
+Theorem C01_wf_premises_example : wf_prog ex2_tys ex2_prog = true /\ r_table ex2_tys = true.
+Proof. exact ex2_wf. Qed.
+Print Assumptions C01_wf_premises_example.
